@@ -452,6 +452,20 @@ func (d *driver) reuseEncDec(encOp, decOp string, enc, dec, twEnc, twDec func(a,
 		if got, err := dec(ctBuf, adBuf); err != nil || !bytes.Equal(got, ptB) {
 			d.fail("retains-argument", decOp, "buffers reused with new contents: the second ciphertext is not decrypted to the second plaintext (%v)", err)
 		}
+		// the ciphertext just accepted, rewritten in place (every position class: start, middle, end), must be refused
+		for _, pos := range []int{0, len(ctBuf) / 2, len(ctBuf) - 1} {
+			if len(ctBuf) == 0 {
+				break
+			}
+			ctBuf[pos] ^= 0x01
+			if _, err := dec(ctBuf, adBuf); err == nil {
+				d.fail("retains-argument", decOp, "ciphertext buffer of the call accepted just before rewritten in place (byte %d): still accepted", pos)
+			}
+			ctBuf[pos] ^= 0x01
+			if got, err := dec(ctBuf, adBuf); err != nil || !bytes.Equal(got, ptB) {
+				d.fail("retains-argument", decOp, "ciphertext buffer restored: the genuine ciphertext is no longer accepted (%v)", err)
+			}
+		}
 	}
 }
 
@@ -498,6 +512,19 @@ func (d *driver) reuseSignVerify(signOp, verOp string, sign func([]byte) ([]byte
 		copy(sBuf, sB)
 		if err := verify(sBuf, dBuf); err != nil {
 			d.fail("retains-argument", verOp, "buffers reused with new contents: the second signature/tag is rejected (%v)", err)
+		}
+		for _, pos := range []int{0, len(sBuf) / 2, len(sBuf) - 1} {
+			if len(sBuf) == 0 {
+				break
+			}
+			sBuf[pos] ^= 0x01
+			if err := verify(sBuf, dBuf); err == nil {
+				d.fail("retains-argument", verOp, "signature/tag buffer of the call accepted just before rewritten in place (byte %d): still accepted", pos)
+			}
+			sBuf[pos] ^= 0x01
+			if err := verify(sBuf, dBuf); err != nil {
+				d.fail("retains-argument", verOp, "signature/tag buffer restored: the genuine signature/tag is no longer accepted (%v)", err)
+			}
 		}
 	}
 }
